@@ -193,7 +193,7 @@ pub fn block(name: &str, c: &AlphaCtx, out: &mut Vec<Op>) {
             }
             out.push(Op::k(OpK::ShrinkToFit));
             out.push(Op::k(OpK::CloneReplace));
-            for s in 0..6 {
+            for s in 0..8 {
                 out.push(Op::arg(OpK::CloneFromInto, s));
             }
         }
@@ -404,7 +404,7 @@ pub fn block(name: &str, c: &AlphaCtx, out: &mut Vec<Op>) {
         }
         "clone" => {
             out.push(Op::k(OpK::CloneReplace));
-            for s in 0..6 {
+            for s in 0..8 {
                 out.push(Op::arg(OpK::CloneFromInto, s));
             }
         }
